@@ -1,3 +1,215 @@
-import GoStd.Bytes
+/-
+C07 — received / rport stamping.
+
+"On a listener with received-support enabled every request leaves the proxy with
+received=<actual source IP> on the sender's Via entry, and with rport=<actual source port> when
+that entry carried an rport parameter, overriding any values the sender supplied; all other Via
+entries and parameters are untouched … With received-support disabled the sender's Via is relayed
+as sent."
+
+Model: `Sip.setReceived` (message.go SetReceived), called from `Proxy.handleRawMessage`.
+Abstraction: `Lemmas.viaStack`; the stamped entry is `Lemmas.stampReceived vp ip port`.
+-/
+import Proxy.Model
+import Lemmas.Abs
+import Lemmas.Param
+import Lemmas.Pipe
+open GoStd Sip Proxy Lemmas
+
 namespace Props.C07
+
+theorem received_ne_rport : str "received" ≠ str "rport" := by decide +kernel
+
+/-! ### the stamped entry -/
+
+/-- `received` reads back the actual source address, whatever the sender supplied -/
+theorem C07_received (vp : ViaParam) (ip : Bytes) (port : Int) :
+    getParam (stampReceived vp ip port).params (str "received") = some ip := by
+  simp only [stampReceived]
+  split
+  · rw [getParam_setParam_other _ _ _ _ received_ne_rport, getParam_setParam_same]
+  · exact getParam_setParam_same ..
+
+/-- an `rport` the sender's entry carried (with or without a value) reads back the actual source port -/
+theorem C07_rport_present (vp : ViaParam) (ip : Bytes) (port : Int)
+    (h : hasParam vp.params (str "rport") = true) :
+    getParam (stampReceived vp ip port).params (str "rport") = some (itoa port) := by
+  simp only [stampReceived]
+  rw [hasParam_setParam_other _ _ _ _ (Ne.symm received_ne_rport), h]
+  simp [getParam_setParam_same]
+
+/-- an entry without `rport` gets none -/
+theorem C07_rport_absent (vp : ViaParam) (ip : Bytes) (port : Int)
+    (h : hasParam vp.params (str "rport") = false) :
+    getParam (stampReceived vp ip port).params (str "rport") = none := by
+  simp only [stampReceived]
+  rw [hasParam_setParam_other _ _ _ _ (Ne.symm received_ne_rport), h]
+  simp only [Bool.false_eq_true, ↓reduceIte]
+  rw [getParam_setParam_other _ _ _ _ (Ne.symm received_ne_rport)]
+  exact (hasParam_false_iff _ _).mp h
+
+/-- every other parameter reads back unchanged -/
+theorem C07_other_param (vp : ViaParam) (ip : Bytes) (port : Int) (k : Bytes)
+    (h1 : k ≠ str "received") (h2 : k ≠ str "rport") :
+    getParam (stampReceived vp ip port).params k = getParam vp.params k := by
+  simp only [stampReceived]
+  split
+  · rw [getParam_setParam_other _ _ _ _ h2, getParam_setParam_other _ _ _ _ h1]
+  · rw [getParam_setParam_other _ _ _ _ h1]
+
+/-- all parameters other than the first `received` / `rport` are untouched and keep their order
+(stated on the entries whose key is neither) -/
+theorem C07_other_params_order (vp : ViaParam) (ip : Bytes) (port : Int) :
+    (stampReceived vp ip port).params.filter (fun p => p.key != str "received" && p.key != str "rport") =
+      vp.params.filter (fun p => p.key != str "received" && p.key != str "rport") := by
+  have hsplit : ∀ ps : List KeyValue,
+      ps.filter (fun p => p.key != str "received" && p.key != str "rport") =
+        (ps.filter (fun p => p.key != str "received")).filter (fun p => p.key != str "rport") := by
+    intro ps; simp [List.filter_filter, Bool.and_comm]
+  have hsplit' : ∀ ps : List KeyValue,
+      ps.filter (fun p => p.key != str "received" && p.key != str "rport") =
+        (ps.filter (fun p => p.key != str "rport")).filter (fun p => p.key != str "received") := by
+    intro ps; simp [List.filter_filter]
+  simp only [stampReceived]
+  split
+  · rw [hsplit', setParam_filter_ne, ← hsplit', hsplit, setParam_filter_ne, ← hsplit]
+  · rw [hsplit, setParam_filter_ne, ← hsplit]
+
+/-- the key sequence: `rport` never moves or appears; `received` keeps its place or is appended -/
+theorem C07_keys (vp : ViaParam) (ip : Bytes) (port : Int) :
+    (stampReceived vp ip port).params.map (·.key) =
+      if hasParam vp.params (str "received") then vp.params.map (·.key)
+      else vp.params.map (·.key) ++ [str "received"] := by
+  simp only [stampReceived]
+  split
+  · rename_i h
+    rw [setParam_keys, h]
+    simp only [↓reduceIte]
+    exact setParam_keys ..
+  · exact setParam_keys ..
+
+/-- at most one parameter is added -/
+theorem C07_length (vp : ViaParam) (ip : Bytes) (port : Int) :
+    (stampReceived vp ip port).params.length ≤ vp.params.length + 1 := by
+  have := congrArg List.length (C07_keys vp ip port)
+  simp only [List.length_map] at this
+  rw [this]
+  split <;> simp
+
+/-- nothing but the parameter list of the entry changes -/
+theorem C07_other_fields (vp : ViaParam) (ip : Bytes) (port : Int) :
+    (stampReceived vp ip port).protoName = vp.protoName ∧
+    (stampReceived vp ip port).protoVersion = vp.protoVersion ∧
+    (stampReceived vp ip port).transport = vp.transport ∧
+    (stampReceived vp ip port).host = vp.host ∧
+    (stampReceived vp ip port).port = vp.port := by
+  simp [stampReceived]
+
+/-! ### the stack -/
+
+/-- Received-support on: the sender's (topmost) Via entry is replaced by its stamped version, all
+other Via entries are untouched and in order; with no decodable top Via nothing changes. -/
+theorem C07_stack (cm : List (Bytes × Bytes)) (m : Message) (ip : Bytes) (port : Int) :
+    viaStack cm (setReceived cm m ip port).headers =
+      match getVia cm m with
+      | some (vp :: _, _) => stampReceived vp ip port :: (viaStack cm m.headers).tail
+      | _ => viaStack cm m.headers :=
+  viaStack_setReceived cm m ip port
+
+/-- the entry that is stamped is the head of the stack -/
+theorem C07_stack_head (cm : List (Bytes × Bytes)) (m m1 : Message) (vp : ViaParam) (rest : List ViaParam)
+    (ip : Bytes) (port : Int) (h : getVia cm m = some (vp :: rest, m1)) :
+    ∃ tl, viaStack cm m.headers = vp :: tl ∧
+      viaStack cm (setReceived cm m ip port).headers = stampReceived vp ip port :: tl := by
+  have h1 := C07_stack cm m ip port
+  rw [h] at h1
+  obtain ⟨r, hr⟩ := (viaStack_getVia cm h).2
+  refine ⟨rest ++ r, by simpa using hr, ?_⟩
+  rw [h1, hr]; rfl
+
+/-- `SetReceived` changes nothing but header values: start line, body, header names and count stay -/
+theorem C07_frame (cm : List (Bytes × Bytes)) (m : Message) (ip : Bytes) (port : Int) :
+    (setReceived cm m ip port).start = m.start ∧ (setReceived cm m ip port).body = m.body := by
+  cases hg : getVia cm m with
+  | none => rw [setReceived_of_none cm ip port hg]; exact ⟨rfl, rfl⟩
+  | some p =>
+    obtain ⟨v, m1⟩ := p
+    cases v with
+    | nil =>
+      rw [setReceived_of_nil cm ip port hg]
+      obtain ⟨_, _, _, rfl⟩ := getVia_some cm hg
+      exact ⟨rfl, rfl⟩
+    | cons vp rest => rw [setReceived_of_cons cm ip port hg]; exact ⟨rfl, rfl⟩
+
+/-! ### in the pipeline
+
+`handleRawMessage` stamps (stage 2) after the route-learning pass has decoded the Via headers in
+place and before the connection bookkeeping and the Route check; none of these other stages
+changes the Via stack. `Lemmas.ClassesOK` = the header-name classes involved are pairwise
+disjoint (`Lemmas.real_classesOK` for the generated table). -/
+
+/-- The Via stack with which a message leaves `handleRawMessage`: for a request on a listener with
+received-support, the received stack with its top entry stamped; in every other case the received
+stack as it was. -/
+theorem C07_handleRawMessage (cfg : Cfg) (hc : ClassesOK cfg.cm) (st : St) (ev : RawEv) :
+    viaStack cfg.cm (handleRawMessage cfg st ev).2.headers =
+      if isRequest ev.msg && ev.receivedSupport then
+        match (getVia cfg.cm ev.msg).map Prod.fst with
+        | some (vp :: _) => stampReceived vp ev.peerAddr ev.peerPort :: (viaStack cfg.cm ev.msg.headers).tail
+        | _ => viaStack cfg.cm ev.msg.headers
+      else viaStack cfg.cm ev.msg.headers :=
+  viaStack_handleRawMessage cfg hc.via_route hc.cseq_via st ev
+
+/-- Received-support enabled: every packet a request event produces serialises a message whose Via
+stack is the received one with the sender's (top) entry stamped — beneath at most one entry the
+proxy pushed itself (C06). -/
+theorem C07_step_enabled (cfg : Cfg) (hc : ClassesOK cfg.cm) (st : St) (ev : RawEv)
+    (hreq : isRequest ev.msg = true) (hrs : ev.receivedSupport = true) (o : Out) (ho : o ∈ (step cfg st ev).2) :
+    ∃ (m' : Message) (pre : List ViaParam), o.data = m'.bytes cfg.cm ∧ pre.length ≤ 1 ∧
+      viaStack cfg.cm m'.headers = pre ++
+        match (getVia cfg.cm ev.msg).map Prod.fst with
+        | some (vp :: _) => stampReceived vp ev.peerAddr ev.peerPort :: (viaStack cfg.cm ev.msg.headers).tail
+        | _ => viaStack cfg.cm ev.msg.headers := by
+  obtain ⟨m', self, hd, hv, _, _, _⟩ := step_request_out cfg hc st ev hreq o ho
+  rw [C07_handleRawMessage cfg hc, hreq, hrs] at hv
+  refine ⟨m', _, hd, ?_, hv⟩
+  cases self <;> simp
+
+/-- Received-support disabled: the sender's Via — the whole received stack — is relayed as sent. -/
+theorem C07_step_disabled (cfg : Cfg) (hc : ClassesOK cfg.cm) (st : St) (ev : RawEv)
+    (hreq : isRequest ev.msg = true) (hrs : ev.receivedSupport = false) (o : Out) (ho : o ∈ (step cfg st ev).2) :
+    ∃ (m' : Message) (pre : List ViaParam), o.data = m'.bytes cfg.cm ∧ pre.length ≤ 1 ∧
+      viaStack cfg.cm m'.headers = pre ++ viaStack cfg.cm ev.msg.headers := by
+  obtain ⟨m', self, hd, hv, _, _, _⟩ := step_request_out cfg hc st ev hreq o ho
+  rw [C07_handleRawMessage cfg hc, hreq, hrs] at hv
+  refine ⟨m', _, hd, ?_, hv⟩
+  cases self <;> simp
+
+/-- non-vacuity of `C07_stack_head` / `C07_rport_present`: the example message of `Lemmas.Abs`
+has a decodable two-entry top Via whose first entry carries `rport` -/
+example : (getVia realCm exMsg).map (fun p => p.1.map (fun vp => hasParam vp.params (str "rport"))) =
+    some [true, false] := by decide +kernel
+
+example : ((viaStack realCm (setReceived realCm exMsg (str "9.9.9.9") 777).headers).map
+    (fun vp => (getParam vp.params (str "received"), getParam vp.params (str "rport")))) =
+    [(some (str "9.9.9.9"), some (str "777")), (none, none), (none, none)] := by decide +kernel
+
+def exVpNoRport : ViaParam :=
+  { protoName := str "SIP", protoVersion := str "2.0", transport := str "TCP", host := str "b", port := 0,
+    params := [⟨str "branch", str "z2"⟩] }
+
+/-- `C07_other_param`: e.g. the branch parameter -/
+example : str "branch" ≠ str "received" ∧ str "branch" ≠ str "rport" := by decide +kernel
+
+/-- `C07_rport_absent`: the second entry of the example top Via has no rport -/
+example : hasParam (exVpNoRport).params (str "rport") = false := by decide +kernel
+
+/-- non-vacuity of the step-level theorems: the example request event (received-support on) is
+relayed; the same event with received-support off is relayed too -/
+example : isRequest (exEv exMsg).msg = true ∧ (exEv exMsg).receivedSupport = true ∧
+    (step exCfg exSt (exEv exMsg)).2.length = 1 ∧
+    (step exCfg exSt { exEv exMsg with receivedSupport := false }).2.length = 1 := by decide +kernel
+
+example : ClassesOK exCfg.cm := real_classesOK
+
 end Props.C07
